@@ -7,11 +7,12 @@
 (* stream Nest rejects - for ALL short streams, not only for single edits  *)
 (* of valid programs (DESIGN.md 4.10, in place of a transcription of       *)
 (* BlockBase.match: the real matcher itself is compared with Nest).        *)
-(* The stream is the body of  PROGRAM p ... END PROGRAM p.                 *)
+(* The stream is the body of  PROGRAM p ... END PROGRAM p  (or of a        *)
+(* SUBROUTINE / FUNCTION, constant Wrap).                                  *)
 (***************************************************************************)
 EXTENDS Naturals, Sequences, TLC, Json, Nest
 
-CONSTANTS MaxItems, Items, DumpMod
+CONSTANTS MaxItems, Items, DumpMod, Wrap        \* Wrap: kind of the enclosing unit ("prog", "sub", "fun")
 VARIABLES st, done
 
 I(k, of, n, l, x) == [k |-> k, of |-> of, v |-> 1, n |-> n, l |-> l, d |-> 0, x |-> x]
@@ -36,19 +37,22 @@ Item(a) ==
     [] a = "sel" -> I("selcase", "", 0, 0, 0)
     [] a = "case" -> I("case", "selcase", 0, 0, 0)
     [] a = "endsel" -> I("end", "selcase", 0, 0, 0)
+    \* a surplus END of the enclosing unit, with kind and name (END SUBROUTINE u1 is an action-stmt in R214: the
+    \* nonblock-DO rules must still not take it as the terminator of a nest, C824 / C826)
+    [] a = "endu" -> [I("endu", Wrap, 1, 0, 2) EXCEPT !.v = 0]
 
 Init == st = <<>> /\ done = FALSE
 Next == \/ /\ ~done /\ Len(st) < MaxItems /\ \E a \in Items : st' = Append(st, a) /\ done' = FALSE
         \/ /\ ~done /\ Len(st) > 0 /\ done' = TRUE /\ st' = st
 Spec == Init /\ [][Next]_<<st, done>>
 
-Prog == I("prog", "", 1, 0, 0)
-EndProg == [I("endu", "prog", 1, 0, 2) EXCEPT !.v = 0]
+Prog == I(Wrap, "", 1, 0, 0)
+EndProg == [I("endu", Wrap, 1, 0, 2) EXCEPT !.v = 0]
 Whole == <<Prog>> \o [i \in 1..Len(st) |-> Item(st[i])] \o <<EndProg>>
 Valid == Accepts(Whole)
 
 RECURSIVE Hash(_)
 Hash(i) == IF i = 0 THEN 7 ELSE (Hash(i - 1) * 31 + (CHOOSE n \in 1..Len(st[i]) : n = Len(st[i])) * 17 + i) % 1000003
 Selected == DumpMod = 1 \/ (Hash(Len(st)) + Len(st)) % DumpMod = 0
-Dump == (done /\ Selected) => PrintT(<<"BEH", ToJson([st |-> st, valid |-> Valid])>>)
+Dump == (done /\ Selected) => PrintT(<<"BEH", ToJson([st |-> st, valid |-> Valid, wrap |-> Wrap])>>)
 =============================================================================
